@@ -20,7 +20,9 @@ Inductive pstep_obs :=
 Inductive case :=
 | TrieSeq (steps : list tstep)
 | ParseIg (rs : ranges) (out : list bool)
-| PubCase (base : N) (evs : list pstep_obs) (obs : list (N * list kv)).
+| PubCase (fx : bool) (base : N) (evs : list pstep_obs) (obs : list (N * list kv)).
+(* fx = what the implementation does now about finding F13 (true = the trie is queried with the
+   user key), detected by the harness by replaying the F13 witness on every run *)
 
 Fixpoint run_tsteps (t : node) (steps : list tstep) : bool * list N :=
   match steps with
@@ -68,8 +70,8 @@ Definition run_case (c : case) : bool * list N :=
       (list_eqb Bool.eqb (parse_ignore_ranges rs) out,
        [30 + N.of_nat (Nat.min (length rs) 3);
         if existsb (fun r => match snd r with Some e => (e <? fst r)%nat | None => false end) rs then 35 else 0])
-  | PubCase base evs obs =>
-      let p := run_pub false (mkPub base [] empty_node []) (map to_pev evs) in
+  | PubCase fx base evs obs =>
+      let p := run_pub fx (mkPub base [] empty_node []) (map to_pev evs) in
       let pfix := run_pub true (mkPub base [] empty_node []) (map to_pev evs) in
       let ok := forallb (fun o => list_eqb kv_eqb (batch_get (fst o) (p_recv p)) (snd o)) obs
                 && (length (p_recv p) <=? length obs)%nat in
